@@ -12,7 +12,7 @@
    as an oracle that tiles the buffer, C03), the C glue and the keyboard-layout tables, wall-clock time. *)
 From Coq Require Import NArith List Bool Arith Lia.
 From LC Require Import Base.Lib Gen.Keyboard_gen Model.Keyboard Gen.Editor_gen Model.Syllable Model.Composition Model.Conversion Model.Editor Model.EditorRun
-     Model.EdInst Proofs.CompositionProofs Proofs.EdInstProofs Proofs.EditorInv Proofs.EditorWitness Proofs.EditorSelect Proofs.NoPanic Proofs.KeyEventsOk.
+     Model.EdInst Proofs.CompositionProofs Proofs.EdInstProofs Proofs.EditorInv Proofs.EditorWitness Proofs.EditorSelect Proofs.NoPanic Proofs.KeyEventsOk Proofs.GraphPath.
 Import ListNotations.
 Open Scope nat_scope.
 
@@ -150,8 +150,23 @@ Proof.
   intros d s0 ab t0 ops Hd Hops. apply C01_no_history_panics_or_hangs; [exact Hops|].
   eapply init_inv; eassumption.
 Qed.
+
+(* The conversion engines sit outside the editor model (their answers enter as an oracle).  What the
+   editor owes them so that ChewingEngine's shortest_path().unwrap() / find_k_paths cannot come back
+   empty: after EVERY history the buffer's interval graph has a path from 0 to its end - for every
+   dictionary and lookup strategy (a recorded choice covers syllables only and has no break inside - part
+   of the invariant -, a syllable without a word is spelled since fix e6644f0; the pinned tree had no
+   path there: C03_path_missing_pinned_refuted) *)
+Theorem C01_conversion_graph_has_a_path_after_every_history : forall ops e e' (lookup : lookup_fn) (spell : N -> list N),
+  Forall op_ok ops -> Inv dops sops dict_ok ss0 e -> run dops sops conv e ops = Ok e' ->
+  exists p, path_ok (find_intervals spell lookup (inner (com (sh e')))) 0 (clen (inner (com (sh e')))) p = true.
+Proof.
+  intros ops e e' lookup spell Hops Hi Hr. apply graph_has_a_path.
+  eapply (run_inv dops sops conv dict_ok) in Hr; try eassumption. now destruct Hr as [[[W _] _ _ _] _].
+Qed.
 End Histories.
 Print Assumptions C01_every_operation_total.
+Print Assumptions C01_conversion_graph_has_a_path_after_every_history.
 Print Assumptions C01_no_history_panics_or_hangs.
 Print Assumptions C01_no_history_from_a_fresh_editor_panics_or_hangs.
 
